@@ -15,6 +15,9 @@ use crate::{
 pub enum R {
     Send,
     Call,
+    /// through a Sender / a Caller the client has held since before any restart
+    SendSnd,
+    CallCal,
     Restart,
     CmdRestart,
     Sleep(u32),
@@ -32,6 +35,8 @@ fn to_op(r: R, id: u32) -> Op {
     match r {
         R::Send => Op::Send(H::Addr(0), id),
         R::Call => Op::Call(H::Addr(0), id),
+        R::SendSnd => Op::Send(H::Snd(0), id),
+        R::CallCal => Op::Call(H::Cal(0), id),
         R::Restart => Op::Restart(H::Addr(0)),
         R::CmdRestart => Op::Cmd(H::Addr(0), id, Action::Restart),
         R::Sleep(t) => Op::Sleep(t),
@@ -545,7 +550,7 @@ fn make_case(progs: &[Vec<R>], strat: Strat, mailbox: Mailbox, start_err_at: Opt
     let mut clients = vec![];
     for (c, p) in progs.iter().enumerate() {
         let ops: Vec<Op> = p.iter().enumerate().map(|(i, r)| to_op(*r, msg_id(c, i))).collect();
-        clients.push(ClientSpec { init: vec![HInit::Addr], ops });
+        clients.push(ClientSpec { init: vec![HInit::Addr, HInit::Snd, HInit::Cal], ops });
     }
     let mut role = RoleCfg::default();
     if let Some(n) = start_err_at {
@@ -682,6 +687,31 @@ fn cases(tier: Tier) -> Vec<Case> {
                 // handler of the new incarnation registers its timer
                 v.push(make_case(&[vec![R::Restart, R::CmdTimer(a), R::Sleep(5), R::Call]], strat, mb, None, &[], 10, None));
                 v.push(make_case(&[vec![R::Call, R::CmdRestart, R::CmdTimer(a), R::Sleep(5), R::Call]], strat, mb, None, &[], 10, None));
+            }
+        }
+    }
+    // an incarnation with *many* timers (six intervals and one-shots registered in started(), two
+    // more by a handler): a restart takes all of them with it
+    for &strat in &[Strat::Default, Strat::Recreate] {
+        for &mb in mbs {
+            let many = [
+                Action::Interval { timer: 1, period: 2 },
+                Action::DelayedSend { timer: 2, delay: 7 },
+                Action::IntervalWith { timer: 3, period: 3 },
+                Action::DelayedExec { timer: 4, delay: 8 },
+                Action::Interval { timer: 5, period: 4 },
+                Action::DelayedSend { timer: 6, delay: 1 },
+            ];
+            v.push(make_case(&[vec![R::Sleep(2), R::Restart, R::Sleep(6), R::Call]], strat, mb, None, &many, 12, Some(2)));
+            v.push(make_case(&[vec![R::CmdTimer(Action::Interval { timer: 7, period: 2 }), R::CmdTimer(Action::DelayedSend { timer: 8, delay: 6 }), R::Sleep(2), R::CmdRestart, R::Sleep(6), R::Call]], strat, mb, None, &many, 12, Some(2)));
+        }
+    }
+    // "its handles stay valid": also the Sender and the Caller a client made before the restart
+    for &strat in &[Strat::Default, Strat::Recreate] {
+        for &mb in mbs {
+            for via in [R::Restart, R::CmdRestart] {
+                v.push(make_case(&[vec![R::SendSnd, via, R::SendSnd, R::CallCal]], strat, mb, None, &[], 0, None));
+                v.push(make_case(&[vec![R::CallCal, via, R::CallCal, via, R::SendSnd, R::Call]], strat, mb, None, &[], 0, None));
             }
         }
     }
